@@ -59,7 +59,14 @@ Definition step_ev (s : est) (w : who) : option event :=
               end
   | WClo i => match nth_error (clos s) i with None => None | Some c => cev s c end
   | WSet => match spc s with SCas => ev_ kCAS cellInproc 0 1 (b2z (inproc s =? 0)) | _ => None end
-  | WUser _ => None
+  | WUser i => match nth_error (users s) i with
+               | None => None
+               | Some u => match upc u with
+                           | UIdle => match utodo u with [] => None | _ => ev_ kMark cellMark 13 0 0 end
+                           | ULd _ => ev_ kR cellState (st s) 0 0
+                           | UPut _ _ => None
+                           end
+               end
   | WSync => None
   end.
 
@@ -69,7 +76,10 @@ Definition terminal (s : est) (w : who) : bool :=
   | WGor i => match nth_error (gors s) i with None => true | Some GExit => true | _ => false end
   | WClo i => match nth_error (clos s) i with None => true | Some c => cterm c end
   | WSet => match spc s with SDone => true | _ => false end
-  | WUser _ => true
+  | WUser i => match nth_error (users s) i with
+               | None => true
+               | Some u => match upc u, utodo u with UIdle, [] => true | _, _ => false end
+               end
   | WSync => match sypc s with
              | SyCons _ => false
              | SyIdle => if cbset s then true else
@@ -113,14 +123,15 @@ Fixpoint first_diff {A} (eqb : A -> A -> bool) (a b : list A) (n : nat) : option
   end.
 
 Record scase := {
-  s_cb0 : bool; s_inb : list ev; s_ncl : nat; s_script : list (nat * nat); s_sy : list nat;
+  s_cb0 : bool; s_inb : list ev; s_ncl : nat; s_script : list (nat * nat); s_sy : list nat; s_ups : list (list (list Z));
   s_sched : list who;
   s_events : list (option event);           (* observed, one per implementation step *)
   s_offers : list (list Z);                 (* observed: what each OnData invocation found in recvBuf *)
   s_consumed : list Z;                      (* observed: concatenation of what the OnData calls read *)
   s_final : list Z;                         (* observed: state, inproc, cstate, in-table, OnLocalClose, OnRemoteClose, close elements sent *)
   s_recv : list Z; s_pend : list Z;         (* observed: bytes left in recvBuf / in pendingData *)
-  s_finished : bool }.                      (* every implementation thread ran to completion *)
+  s_finished : bool;
+  s_ures : list (list bool) }.              (* observed: per user thread, did each Flush return nil *)                      (* every implementation thread ran to completion *)
 
 Fixpoint all_terminal_g (s : est) (n : nat) : bool :=
   match n with O => true | S k => terminal s (WGor k) && all_terminal_g s k end.
@@ -130,9 +141,10 @@ Definition model_quiescent (s : est) (setter : bool) : bool :=
   terminal s WEv && all_terminal_g s (length (gors s)) && all_terminal_c s (length (clos s)) && terminal s WSync.
 
 (* 0 agree; 1 trace differs (position); 2 offers differ; 3 consumed differ; 4 final scalars differ; 5 leftover bytes differ;
-   6 the implementation's threads all finished but a model thread still has steps to take *)
+   6 the implementation's threads all finished but a model thread still has steps to take;
+   7 the results of the user Flush calls differ *)
 Definition check_case (c : scase) : Z * option nat :=
-  let s0 := init_sy (s_cb0 c) (s_inb c) (s_ncl c) (s_script c) [] (s_sy c) in
+  let s0 := init_sy (s_cb0 c) (s_inb c) (s_ncl c) (s_script c) (s_ups c) (s_sy c) in
   let '(tr, s) := btrace (s_sched c) s0 in
   match first_diff oev_eqb tr (s_events c) 0 with
   | Some n => (1, Some n)
@@ -142,10 +154,12 @@ Definition check_case (c : scase) : Z * option nat :=
     else if negb (list_eqb Z.eqb [st s; inproc s; cstate s; b2z (intable s);
                                   (* the callbacks are only observable when installed *)
                                   (if cbset s then nlocal s else 0); (if cbset s then nremote s else 0);
-                                  Z.of_nat (length (filter (fun e => match e with EClose => true | _ => false end) (out s)))]
+                                  Z.of_nat (length (filter (fun e => match e with EClose => true | _ => false end) (out s)));
+                                  Z.of_nat (length (filter (fun e => match e with EData _ => true | _ => false end) (out s)))]
                            (s_final c)) then (4, None)
     else if negb (list_eqb Z.eqb (recv s) (s_recv c) && list_eqb Z.eqb (concat (pending s)) (s_pend c)) then (5, None)
     else if s_finished c && negb (model_quiescent s false) then (6, None)
+    else if negb (list_eqb (list_eqb Bool.eqb) (map (fun u => map fst (ures u)) (users s)) (s_ures c)) then (7, None)
     else (0, None)
   end.
 
@@ -158,7 +172,7 @@ Fixpoint mismatches_from (n : nat) (cs : list scase) : list (nat * Z * option na
 Definition mismatches := mismatches_from 0.
 
 (* diagnostics for replay files *)
-Definition model_trace (c : scase) := fst (btrace (s_sched c) (init_sy (s_cb0 c) (s_inb c) (s_ncl c) (s_script c) [] (s_sy c))).
+Definition model_trace (c : scase) := fst (btrace (s_sched c) (init_sy (s_cb0 c) (s_inb c) (s_ncl c) (s_script c) (s_ups c) (s_sy c))).
 Definition model_final (c : scase) :=
-  let s := snd (btrace (s_sched c) (init_sy (s_cb0 c) (s_inb c) (s_ncl c) (s_script c) [] (s_sy c))) in
+  let s := snd (btrace (s_sched c) (init_sy (s_cb0 c) (s_inb c) (s_ncl c) (s_script c) (s_ups c) (s_sy c))) in
   (offers s, consumed s, [st s; inproc s; cstate s; b2z (intable s); nlocal s; nremote s], recv s, concat (pending s)).
